@@ -101,3 +101,38 @@ class Image:
         self.shoff, self.phoff, self.shent, self.phent = h['e_shoff'], h['e_phoff'], shent, phent
         img = L.ident(cls, little, self.osabi) + L.encode('EHDR', cls, little, h) + body + [0xEF] * tail
         return img
+
+
+def machines_of_interest():
+    """EM_* names that the library's CODE mentions (structs, relocation handling, dynamic/notes...; not its enumeration and
+    description tables, nor the machine -> name dictionary of get_machine_arch): every machine the current source may treat
+    specially.  Computed from the source under $VERIF_REPO at run time, so a special case somebody adds is picked up."""
+    import os
+    import re
+    repo = os.environ.get('VERIF_REPO', '/repo')
+    names = set()
+    for root, _, files in os.walk(os.path.join(repo, 'elftools')):
+        if os.sep + 'construct' in root:
+            continue
+        for fn in files:
+            if not fn.endswith('.py') or fn in ('enums.py', 'descriptions.py'):
+                continue
+            try:
+                src = open(os.path.join(root, fn), encoding='utf-8', errors='replace').read()
+            except OSError:
+                continue
+            for m in re.finditer(r"""['"](EM_[A-Za-z0-9_]+)['"](\s*:\s*['"])?""", src):
+                if not m.group(2):
+                    names.add(m.group(1))
+    return sorted(names)
+
+
+def stream_length(stream):
+    """ELFFile.stream_len of a harness double: the size of the stream (position preserved)"""
+    if stream is None:
+        return 0
+    pos = stream.tell()
+    stream.seek(0, 2)
+    n = stream.tell()
+    stream.seek(pos)
+    return n
